@@ -20,7 +20,9 @@ R-C12.7  every call site gets its own inference variables: `FunctionType.unquant
          (`cached_property` modelled as compute-once) -- one variable per parameter, in order, and no variable shared between the
          two calls (c12_fresh.py).
 R-C12.8  `check_call` (branch that uses the expected type) interpreted on the triangular solution ?T := ?A, ?B := int, ?A := bool:
-         accepted, instantiation and returned solution fully resolved (c12_fresh.run_closed).
+         accepted, instantiation and returned solution fully resolved (c12_fresh.run_closed); `type_check_args` on callee parameters
+         tied through the expected type: a later argument never overwrites an earlier solution (run_args); `check_type_against` on a
+         generic function value: no private variable escapes in the solution handed back (run_against).
 Not decided: most-generality beyond this universe, unbounded nesting depth.
 """
 
@@ -312,3 +314,5 @@ def run(ctx: Ctx) -> None:
     from . import c12_fresh
     c12_fresh.run(ctx)
     c12_fresh.run_closed(ctx)  # R-C12.8
+    c12_fresh.run_args(ctx)
+    c12_fresh.run_against(ctx)
